@@ -4,6 +4,7 @@ import Hive.Model.AdsTrieLine
 import Hive.Proofs.AdsConc
 import Hive.Proofs.AdsRealm
 import Hive.Gen.C09_Skel
+import Hive.Gen.C09_Consts
 /-!
 # C09 — authenticated map / set: contents, content-only root, faithful reopen
 
@@ -706,6 +707,73 @@ theorem C09_skeleton_has_helper : skel_authenticatedMap_has =
 open Hive.Gen.C09Skel in
 theorem C09_skeleton_addSize : skel_authenticatedMap_addSize =
     ["call m.size.Get", "if{", "return", "}if", "call m.size.Set", "if{", "return", "}if", "return"] := by decide
+
+open Hive.Gen.C09Skel in
+/-- The constructor: raw-key view, size cell, root cell, node-store view (both views through
+`WithExtendedRealm`, i.e. relative to the realm of the store handed in), one `root.Get`, and the trie
+is imported in one branch and new in the other. -/
+theorem C09_skeleton_constructor : skel_newAuthenticatedMap =
+    ["call store.WithExtendedRealm", "call lo.PanicOnErr", "call kvstore.NewTypedStore", "call kvstore.NewTypedValue",
+     "call kvstore.NewTypedValue", "call store.WithExtendedRealm", "call lo.PanicOnErr", "call newMap.root.Get", "if{",
+     "call smt.WithValueHasher", "call smt.ImportSparseMerkleTrie", "}else{", "call smt.WithValueHasher",
+     "call smt.NewSparseMerkleTrie", "}if", "return"] := by decide
+
+open Hive.Gen.C09Skel in
+/-- The set flavour adds nothing of its own: `Add` is one `Set`, `Stream` one `Stream` of the embedded
+map, and the struct embeds the map (no field that could shadow the map's mutex, trie or cells). -/
+theorem C09_skeleton_set_flavour :
+    skel_authenticatedSet_Add = ["call s.Set", "return"] ∧
+    skel_authenticatedSet_Stream = ["func{", "return", "}func", "call s.authenticatedMap.Stream", "return"] ∧
+    skel_newAuthenticatedSet = ["return"] ∧
+    skel_type_authenticatedSet = ["struct", "embedded *authenticatedMap[IdentifierType,K,types.Empty]"] := by decide
+
+open Hive.Gen.C09Skel in
+/-- The fields of the map: one trie, one raw-key store, a `uint64` size cell, a root cell, one `RWMutex`. -/
+theorem C09_skeleton_type_map : skel_type_authenticatedMap =
+    ["struct", "rawKeysStore *kvstore.TypedStore[K,types.Empty]", "tree *smt.SMT", "size *kvstore.TypedValue[uint64]",
+     "root *kvstore.TypedValue[IdentifierType]", "mutex sync.RWMutex", "keyToBytes kvstore.ObjectToBytes[K]",
+     "valueToBytes kvstore.ObjectToBytes[V]", "bytesToValue kvstore.BytesToObject[V]"] := by decide
+
+open Hive.Gen.C09Skel in
+/-- The node-store adapter forwards `Get / Set / Delete` one to one to the store view (the trie's
+records live in the realm the constructor opened, nothing is cached or renamed in between). -/
+theorem C09_skeleton_adapter :
+    skel_mapStoreAdapter_Get = ["call k.underlying.Get", "return"] ∧
+    skel_mapStoreAdapter_Set = ["call k.underlying.Set", "return"] ∧
+    skel_mapStoreAdapter_Delete = ["call k.underlying.Delete", "return"] ∧
+    skel_mapStoreAdapter_Len = ["func{", "return", "}func", "call k.underlying.IterateKeys", "if{", "}if", "return"] ∧
+    skel_mapStoreAdapter_ClearAll = ["call k.underlying.Clear", "return"] ∧
+    skel_type_mapStoreAdapter = ["struct", "underlying hivekvstore.KVStore"] := by decide
+
+/-! ## Regenerated tie: the persistent layout
+
+`Hive/Gen/C09_Consts.lean` is regenerated from ads/map_impl.go and ads/set_impl.go on every run: the
+values of the four prefix constants (the `iota` block), their type, and the wiring of the constructor. -/
+
+open Hive.Gen.C09Consts in
+/-- **The layout of the model is the layout of the source.**  The region ids of `layout` (raw keys,
+node store, root cell, size cell) are the realm continued with the regenerated constants, in the
+roles the regenerated constructor wiring gives them: raw keys and node store are opened with
+`WithExtendedRealm` of the store handed in, root and size are cells of that same store; the size
+cell is a `uint64` written as `uint64(int(size) + delta)` and reported as `int(size)`; the trie is
+imported exactly when `root.Get` answers without error; `WasRestoredFromStorage` is "the error is
+not `ErrKeyNotFound`"; the set flavour passes the `types.Empty` codec and `Add` is `Set(key, Void)`. -/
+theorem C09_layout_regenerated :
+    (constNames = ["prefixRawKeysStorage", "prefixTreeStorage", "prefixRootKey", "prefixSizeKey"] ∧ constType = "uint8") ∧
+    wiring = ["rawKeysStore store.WithExtendedRealm prefixRawKeysStorage keyToBytes bytesToKey types.Empty.Bytes types.EmptyFromBytes",
+              "size store key prefixSizeKey typeutils.Uint64ToBytes typeutils.Uint64FromBytes",
+              "root store key prefixRootKey identifierToBytes bytesToIdentifier",
+              "tree store.WithExtendedRealm prefixTreeStorage",
+              "trie if err == nil then ImportSparseMerkleTrie mapStoreAdapter root[:] smt.WithValueHasher(nil) else NewSparseMerkleTrie mapStoreAdapter smt.WithValueHasher(nil)"] ∧
+    setWiring = ["map store, identifierToBytes, bytesToIdentifier, keyToBytes, bytesToKey, types.Empty.Bytes, types.EmptyFromBytes",
+                 "Add return s.Set(key, types.Void)",
+                 "Stream return s.authenticatedMap.Stream(func(key K, _ types.Empty) error { return callback(key) })"] ∧
+    restoredBody = ["_, err := m.root.Get()", "return !ierrors.Is(err, kvstore.ErrKeyNotFound)"] ∧
+    (addSizeWrites = "uint64(int(size) + delta)" ∧ sizeReturns = "int(size)") ∧
+    ∀ r : Realm,
+      layout.raw r = r ++ [UInt8.ofNat prefixRawKeysStorage] ∧ layout.tree r = r ++ [UInt8.ofNat prefixTreeStorage] ∧
+      layout.root r = r ++ [UInt8.ofNat prefixRootKey] ∧ layout.size r = r ++ [UInt8.ofNat prefixSizeKey] :=
+  ⟨⟨rfl, rfl⟩, rfl, rfl, rfl, ⟨rfl, rfl⟩, fun _ => ⟨rfl, rfl, rfl, rfl⟩⟩
 
 /-! ## the hypotheses are satisfiable; a concrete non-trivial run -/
 
